@@ -28,10 +28,11 @@ evaluation order and no `GetOffsetStorage` in it:
            structure *without any bytes and parameters* (constant virtual fields, constant
            conditions) holds under the field's name;
   alias    an alias that is present reads what its target reads;
-  count / elem   a present array field with computable location whose whole extent is inside
-           the window (embref D2: the count is defined for complete arrays only) has
-           `size / element size` elements, and element `i` below that count is decoded like a
-           scalar field at `s + i·e`.
+  count    a present array field with computable location whose whole extent is inside the
+           window (embref D2: the count is defined for complete arrays only) has
+           `size / element size` elements;
+  elem     element `i` of a present array of scalars, lying inside the field's extent
+           (`e·i + e ≤ size`), is decoded like a scalar field at `s + e·i`.
 
 Expressions (decision D1 of embref.py): a reference is unknown unless the corresponding fact
 holds; operators are strict in unknown-ness except `&&`, `||` ("even if the other argument
@@ -104,11 +105,11 @@ def window (st : Storage) (childIsBits : Bool) (bo : ByteOrder) (s z bits : Nat)
   | .bytes d, true => .bits (fieldRaw (.bytes d) bo s z bits) bits
   | .bits x n, _ => .bits (if s + z ≤ n then x.map (Emboss.Scalar.Spec.bits s z) else none) z
 
-/-- The whole extent `[s, s+z)` is inside a readable window. -/
+/-- The whole extent `[s, s+z)` is inside a readable window (an empty extent always is). -/
 def extentIn (st : Storage) (s z : Nat) : Bool :=
   match st with
-  | .bytes (some d) => decide (s + z ≤ d.length)
-  | .bits (some _) n => decide (s + z ≤ n)
+  | .bytes (some d) => decide (z = 0 ∨ s + z ≤ d.length)
+  | .bits (some _) n => decide (z = 0 ∨ s + z ≤ n)
   | _ => false
 
 mutual
@@ -230,16 +231,17 @@ inductive RFact (m : Module) : SView → Fact → Prop
       (hin : extentIn w.st s.toNat z.toNat = true) :
       RFact m w (.count x (z.toNat / es))
   | elem {w : SView} {x : String} {f : Field} {start size : Expr} {k : ScalarKind} {bits : Nat}
-      {req : Option Expr} {es : Nat} {bo : ByteOrder} {s : Int} {n i raw : Nat} {v : Val} (ρ : Env)
+      {req : Option Expr} {es : Nat} {bo : ByteOrder} {s z : Int} {i raw : Nat} {v : Val} (ρ : Env)
       (hf : w.sd.field x = some f)
       (hk : f.kind = .phys start size (.array (.scalar k bits req) es) bo)
-      (hcount : RFact m w (.count x n))
-      (hi : i < n)
+      (hpres : RFact m w (.pres [x] true))
       (hr : ∀ p v, ρ.read p = some v → RFact m w (.val p v))
       (hh : ∀ p c, ρ.has p = some c → RFact m w (.pres p c))
       (hp : ∀ n v, ρ.param n = some v → w.param n = some v)
       (hl : ρ.lv = none)
-      (hs : evalR ρ start = some (.int s)) (hs0 : 0 ≤ s)
+      (hs : evalR ρ start = some (.int s)) (hz : evalR ρ size = some (.int z))
+      (hs0 : 0 ≤ s) (hz0 : 0 ≤ z)
+      (hi : es * i + es ≤ z.toNat)
       (hraw : fieldRaw w.st bo (s.toNat + es * i) es bits = some raw)
       (hv : specDecode k bits raw = some v)
       (hreq : requiresOk ρ req v) :
@@ -283,7 +285,8 @@ def sizeIsBits (unit : Nat) (size : Expr) (bits : Nat) : Bool :=
 /-- A field of the fragment (in a structure whose addressable unit is `unit`, 8 = bytes, 1 =
 bits): a scalar of a kind R decodes, with `[requires]`; a field of structure or `bits` type (any
 location expressions; a `bits` type in a byte structure has its fixed size); an array of such
-scalars (element size = size of the type); a virtual field; an alias.  All expressions free of
+scalars in a byte structure (element size = size of the type; arrays inside `bits` cannot be
+instantiated in C++ — side finding of round 1 — and are outside); a virtual field; an alias.  All expressions free of
 folding annotations. -/
 def refField (m : Module) (unit : Nat) (f : Field) : Bool :=
   foldFree f.cond &&
@@ -299,7 +302,7 @@ def refField (m : Module) (unit : Nat) (f : Field) : Bool :=
        else sd'.unit != 8)
   | .phys start size (.array (.scalar k bits req) es) _ =>
     okKind k && foldFree start && foldFree size && foldFreeOpt req &&
-    decide (0 < bits) && (if unit = 8 then es * 8 == bits else es == bits)
+    decide (0 < bits) && decide (unit = 8) && es * 8 == bits
   | .phys _ _ (.array _ _) _ => false
   | .virt value req => foldFree value && foldFreeOpt req
   | .alias _ => true
